@@ -36,7 +36,7 @@ CHECKS = {
    note=S_NOTE + ' netutil is rebuilt with listSize=3 by constant override; if the constant disappears the check reports INFRA-ERROR rather than passing vacuously.'),
  'C19': dict(engine='vsched', cat='model_checking', ref='4 (C19), 2.2',
    technique='stateless model checking of the instrumented real code: call sequences are free choices enumerated together with all writer/consumer interleavings (unbounded)',
-   text='All 518 call sequences (<=3 calls x Write/WriteString x full/short/failing underlying writer x StringWriter or not) crossed with all interleavings of the writer and a consumer draining Status(); invariant at every scheduling step: the writer is never disabled inside Write/WriteString; oracles: Size() equals the sum reported, received values are non-decreasing prefix sums, after Close the last value is the total and the channel is closed.',
+   text='All 1036 call sequences (<=3 calls (thorough 4) x Write/WriteString x full/short/failing underlying writer x StringWriter or not x 4-byte or 70 000-byte payload) crossed with all interleavings of the writer and a consumer draining Status(), plus a wide-but-shallow scenario of 40 writes with a late consumer; invariant at every scheduling step: the writer is never disabled inside Write/WriteString; oracles: Size() equals the sum reported, received values are non-decreasing prefix sums, after Close the last value is the total and the channel is closed.',
    note=S_NOTE),
  'C02': dict(engine='vsched', cat='model_checking', ref='4 (C02), 2.2',
    technique='stateless model checking of the instrumented real logger: all interleavings at pool get/put, outMu and inside the destination Write, differential oracle against the same record logged alone',
@@ -72,23 +72,23 @@ CHECKS = {
    note=S_NOTE + ' Records are decoded by the JSON reader / text tokenizer / positionally (nano).'),
  'C16': dict(engine='enumeration', cat='exploration', ref='4 (C16), 2.4',
    technique='exhaustive enumeration of all strings up to length 5 over the 15-symbol alphabet against a POSIX word-splitting model, and up to length 4 (quick) / 5 (thorough) against the real dash and bash',
-   text='1 628 762 (function, string) pairs through the model (exactly one word, equal to the input, no expansion / substitution / glob / operator / comment / tilde event - except exactly one tilde expansion for ExceptTilde on ~/ inputs) and 220 024 words through dash and bash in batch scripts (one argument equal to the input, or $HOME/rest).',
+   text='About 1.75 M (function, string) pairs through the model - all strings of length <= 5 (thorough 6) over the 15-symbol alphabet, tilde prefixes ~w/w\', every single byte - (exactly one word, equal to the input, no expansion / substitution / glob / operator / comment / tilde event, except exactly one tilde expansion for ExceptTilde on ~/ inputs; results kept across calls must not change) and about 450 000 words through dash and bash in batch scripts (one argument equal to the input, or $HOME/rest).',
    note='Trusted base: the word-splitting model (engine/voracle/shellmodel.go), itself cross-checked against two real shells on the same words; non-interactive shells (history expansion off), HOME containing a space and a quote.'),
  'C17': dict(engine='enumeration', cat='exploration', ref='4 (C17), 2.4',
-   technique='exhaustive enumeration of all URL paths up to length 8 over 4 symbols x 12 bases against a lexical containment oracle',
-   text='1 048 668 (base, path) pairs: the result must be the cleaned base or lexically beneath it, and for paths without dot segments equal the plain join.',
+   technique='exhaustive enumeration of all URL paths up to length 9 (thorough 11) over 4 symbols, and up to length 7 over a percent-escape alphabet, x 12 bases against a lexical containment oracle',
+   text='Every URL path of length <= 9 (thorough 11) over {/ . a \\\\} and of length <= 7 over {/ . % 2 e f} x 12 bases (about 4.8 M pairs quick): the result must be the cleaned base or lexically beneath it, and for paths without dot segments equal the plain join (percent-escapes stay literal).',
    note='Trusted base: the segment-wise containment oracle; lexical only (no symlinks on disk).'),
  'C10': dict(engine='enumeration', cat='exploration', ref='4 (C10), 2.4',
-   technique='exhaustive enumeration of all argument vectors up to length 4 (quick) / 5 (thorough) over 27 tokens against a reference parser of the documented grammar',
-   text='551 881 (quick) argument vectors: error exactly when the grammar says so, never a panic, otherwise identical field values, Args() and ShowUsage().',
+   technique='exhaustive enumeration of all argument vectors up to length 4 (quick) / 5 (thorough) over 31 tokens against a reference parser of the documented grammar',
+   text='All argument vectors of length <= 4 (quick, about 0.95 M) / <= 5 (thorough, about 29 M) over 31 tokens against a struct with bool, int, string, duration, uint64, a long-named int and a nested int64 flag: error exactly when the grammar says so, never a panic, otherwise identical field values, Args() and ShowUsage().',
    note='Trusted base: the reference parser (checks/c10/main.go, written from the documented grammar). Only the command line speaks (no CFG_* variables, no -config).'),
  'C09': dict(engine='enumeration', cat='exploration', ref='4 (C09), 2.4',
    technique='exhaustive enumeration of generated configurations (reflect.StructOf) over field kind x nesting x tag syntax x all 16 source subsets x value sets x JSON carrier x cli spelling x second-field subsets',
-   text='61 632 (quick) / 123 264 (thorough) Parse calls, each with its own environment and config file; the field must equal the strconv-parsed value of the highest-priority source mentioning it, the second field its own, and trailing args are preserved.',
+   text='About 123 000 (quick) / 246 000 (thorough) Parse calls over 9 kinds x 4 nesting positions (incl. acronym names DB.URL -> CFG_DB_URL) x 2 tag syntaxes x 16 source subsets x 3 value sets x 3 JSON carrier modes (file, CFG_CONFIG_B64, both: the file wins) x 3 cli spellings x the second field\'s subsets, each with its own environment and config file; the field must equal the strconv-parsed value of the highest-priority source mentioning it, the second field its own, and trailing args are preserved.',
    note='Trusted base: strconv / time.ParseDuration / base64 as value parsers; literal environment names in the harness.'),
  'C18': dict(engine='fault enumeration (vos seam)', cat='fault_enumeration', ref='4 (C18), 2.1',
    technique='exhaustive enumeration of fault positions: every numbered file-system call of each scenario fails in turn (plus calls revealed by a fault, and every pair in thorough), on a real temporary directory and a second real file system',
-   text='111 scenarios (size x destination x alias x parent x source presence, CopyFile and MoveFile, real EXDEV between / and /dev/shm) x every single fault position incl. partial copies = 508 runs (quick); byte-level snapshots before/after decide; the source may be removed only once the destination is complete (checked at the remove call).',
+   text='111 scenarios (size x destination x alias x parent x source presence, CopyFile and MoveFile, real EXDEV between / and /dev/shm) x every single fault position incl. partial copies (about 600 runs quick; every pair of positions in thorough); byte-level snapshots before/after decide; the source may be removed only once the destination is complete (checked at the remove call).',
    note='Trusted base: the vos seam (engine/shim/vos) mounted over os/io calls of util/osutil by the instrumenter; real file systems.'),
  'C20': dict(engine='spin + real-process replay', cat='model_checking', ref='4 (C20), 2.5',
    technique='Promela model of caller/launcher/daemon checked exhaustively by spin (no partial-order reduction), parameterised by the code (order of signal.Notify and cmd.Start read by AST); every reachable schedule class is obtained by reachability queries with replayed witness trails and then replayed on real processes through the verif pause points',
